@@ -126,7 +126,7 @@ def small_cycles(stop: int, start: int, k: int) -> str:
     prev = None
     for _ in range(k):
         v = next(g)
-        if v < start or v > stop:
+        if v < 0 or v > 65535:
             return "range"
         if prev is not None and v == prev:
             return "repeat"
